@@ -6,8 +6,8 @@ import time
 
 VERIF = os.path.dirname(os.path.dirname(os.path.abspath(__file__)))
 KNOWN_FILE = os.path.join(VERIF, 'known_findings.json')
-EVIDENCE_DIR = os.path.join(VERIF, 'evidence')
-REPLAY_DIR = os.path.join(VERIF, 'replay')
+EVIDENCE_DIR = os.environ.get('AYLINT_EVIDENCE_DIR') or os.path.join(VERIF, 'evidence')
+REPLAY_DIR = os.environ.get('AYLINT_REPLAY_DIR') or os.path.join(VERIF, 'replay')
 
 
 class AnalysisError(Exception):
